@@ -648,8 +648,11 @@ static void run_case(Rng&, Ctx& c)
     ChildOutcome o;
     for (int attempt = 0; attempt < 2; attempt++)
     {
-      o = runChild([&](int wfd) { loadInChild(kind, "m.bin", wfd); }, 10., 240., "child.err");
+      o = runChild([&](int wfd) { loadInChild(kind, "m.bin", wfd); }, 5., 240., "child.err");
       if (o.kind != ChildOutcome::TIMEOUT) break;
+      // 5 s of CPU TIME on a file of at most a few hundred KiB is a verdict that does not depend on the machine load;
+      // only a wall-clock (watchdog) time-out is re-run once before a hang is declared
+      if (o.cpuLimitHit) break;
       c.probe("timeout-rerun");
     }
     nrun++;
@@ -673,7 +676,7 @@ static void run_case(Rng&, Ctx& c)
     if (o.kind == ChildOutcome::TIMEOUT)
     {
       c.probe("timed-out");
-      L.fail("loader-survives", base + "hang", "no answer within 10 s CPU / 240 s wall, twice | " + det);
+      L.fail("loader-survives", base + "hang", "no answer within 5 s CPU (or 240 s wall, twice) | " + det);
       continue;
     }
     if (o.kind == ChildOutcome::DIED)
